@@ -491,7 +491,7 @@ pub fn run(ctx: &Ctx) -> Report {
     }
     Report {
         tally,
-        rule: "each generated components file (multi-system, auxiliaries on several systems, metadata, hostile comments) is (b) parsed and evaluated again 8 (thorough: 16) times in fresh threads - the carrier and regenerated-auxiliary orders actually produced are recorded -, (a) rewritten by 1-4 of {line shuffle, splitting lines into 2-3 with the same tags, consistent id renumbering incl. negative ids, comment lines and trailing comments, blank lines, header line, BOM, padding / tabs / CRLF, id 0 omitted} and evaluated again, and (c) every ~60th file is run twice through the real binary (plain report and JSON compared); non-trivial = the file evaluates, has at least two carriers, and either two distinct iteration orders were seen or a rewriting was applied; distinct = distinct (case, rewriting seed)".into(),
+        rule: "each generated components file (multi-system, auxiliaries on several systems, metadata, hostile comments) is (b) parsed and evaluated again 8 (thorough: 16) times in fresh threads - the carrier and regenerated-auxiliary orders actually produced are recorded -, (a) rewritten by 1-4 of {line shuffle, splitting lines into 2-3 with the same tags, consistent id renumbering incl. negative ids, comment lines and trailing comments, blank lines, header line, BOM, padding / tabs / CRLF, id 0 omitted} and evaluated again, and (c) every ~60th file is run twice through the real binary (plain report and JSON compared); non-trivial = the file evaluates, has at least two carriers, and either two distinct iteration orders were seen or a rewriting was applied; distinct = distinct (case, rewriting seed); second session: one base evaluation in three is preceded in the same thread by the same building with a factor set differing in one number and / or by an evaluation refused half-way (history independence); metadata lines move with the shuffle; a BOM may be followed by a padded comment / metadata / header line; SALIDA lines are also split into parts of opposite sign; the DHW indicator's error text is compared between repetitions".into(),
         assumptions: vec![
             "rewritings change summation order: comparison within atol 1e-4 + rtol * cancellation scale; repetitions of the same text within 2e-6 of the scale".into(),
             "SALIDA and DEMANDA lines have no id-less form in the documented format and are not rewritten that way".into(),
